@@ -37,7 +37,7 @@ import sys
 from concurrent.futures import ProcessPoolExecutor
 from pathlib import Path
 
-TOOL_VERSION = "racetable-4"
+TOOL_VERSION = "racetable-5"
 CLANG = os.environ.get("BFL_CLANG", "clang++-14")
 EIGEN_INC = "/usr/include/eigen3"
 
@@ -125,9 +125,11 @@ def annotate(node, loc):
                 pos = p
         elif k == "range" and isinstance(v, dict):
             b = loc.any(v.get("begin"))
-            loc.any(v.get("end"))
+            e = loc.any(v.get("end"))
             if b is not None:
                 pos = b
+            if e is not None:
+                node["_end"] = e
         elif k == "inner":
             if "kind" in node:
                 node["_pos"] = pos or (loc.file, loc.line, 0)
@@ -234,6 +236,9 @@ class TU:
             for c in inner(n):
                 self.index(c, cls)
             return
+        if k == "VarDecl":
+            self.static_var(n, cls or "")
+            return
         if k in FUNC_KINDS:
             owner = cls
             if owner is None:
@@ -253,7 +258,29 @@ class TU:
                 m["implicit"] = bool(n.get("isImplicit"))
                 m["deleted"] = m["deleted"] or bool(n.get("explicitlyDeleted"))
             n["_key"] = key
+            if has_body(n):
+                self.index_static_locals(n, (owner + "::" if owner else "") + n.get("name", ""))
             return
+
+    def static_var(self, n, owner):
+        """data with static storage duration (namespace scope, static data member, static local) that is
+        not const: a pseudo-member of the pseudo-class `static` / `static:<Class or function>`"""
+        t = qt(n)
+        if t.startswith("const ") or n.get("constexpr") or " const" in t.split("<")[0]:
+            return
+        cls = "static" + ((":" + owner) if owner else "")
+        kind = field_kind(t, dqt(n))
+        self.fields[n["id"]] = (cls, n.get("name", ""), kind, t)
+        c = self.classes.setdefault(cls, {"bases": [], "fields": [], "methods": {}, "file": self.rel(n["_pos"][0]), "line": n["_pos"][1]})
+        if not any(f[0] == n.get("name", "") for f in c["fields"]):
+            c["fields"].append((n.get("name", ""), kind, t, n["_pos"][1]))
+
+    def index_static_locals(self, n, owner):
+        for c in inner(n):
+            if c["kind"] == "VarDecl" and c.get("storageClass") == "static":
+                self.static_var(c, owner)
+            if c["kind"] not in ("CXXRecordDecl",):
+                self.index_static_locals(c, owner)
 
     # -- pass 2: bodies
     def collect_bodies(self, n, cls):
@@ -273,7 +300,8 @@ class TU:
             key = n["_key"]
             w = Walker(self, key)
             w.function(n)
-            b = self.bodies.setdefault(key, {"rows": [], "calls": [], "file": self.rel(n["_pos"][0]), "line": n["_pos"][1]})
+            b = self.bodies.setdefault(key, {"rows": [], "calls": [], "file": self.rel(n["_pos"][0]), "line": n["_pos"][1],
+                                             "end_line": (n.get("_end") or n["_pos"])[1]})
             for r in w.rows:
                 if r not in b["rows"]:
                     b["rows"].append(r)
@@ -441,6 +469,10 @@ class Walker:
 
     def declref(self, n):
         r = n.get("referencedDecl") or {}
+        sv = self.tu.fields.get(r.get("id"))
+        if sv is not None and r.get("kind") == "VarDecl":
+            self.row(sv, self.classify(n, sv), False, n)
+            return
         key = self.tu.funcs.get(r.get("id"))
         if key is None:
             return
@@ -682,9 +714,9 @@ def merge(res):
                     m[fl] = m[fl] or v[fl]
         for k, b in r["bodies"]:
             k = tuple(k)
-            d = bodies.setdefault(k, {"rows": [], "calls": [], "file": b["file"], "line": b["line"]})
+            d = bodies.setdefault(k, {"rows": [], "calls": [], "file": b["file"], "line": b["line"], "end_line": b.get("end_line", b["line"])})
             if b["file"].endswith(".cpp"):
-                d["file"], d["line"] = b["file"], b["line"]
+                d["file"], d["line"], d["end_line"] = b["file"], b["line"], b.get("end_line", b["line"])
             for row in b["rows"]:
                 if row not in d["rows"]:
                     d["rows"].append(row)
@@ -785,16 +817,18 @@ def merge(res):
         m = methods[k]
         b = bodies.get(k, {})
         mlist.append({"cls": m["cls"], "name": m["name"], "sig": m["sig"], "qual": disp[k], "name2": name2[k], "ovl": ovl[k], "virtual": m["virtual"], "pure": m["pure"],
-                      "kind": m["kind"], "body": m["body"], "file": b.get("file", ""), "line": b.get("line", 0)})
+                      "kind": m["kind"], "body": m["body"], "file": b.get("file", ""), "line": b.get("line", 0), "end_line": b.get("end_line", 0)})
     mid = {k: i for i, k in enumerate(mkeys)}
     fid = {(f["cls"], f["name"]): i for i, f in enumerate(fields)}
-    accesses = []
+    accesses, via_rows = [], []
     for k in mkeys:
         for r in bodies.get(k, {}).get("rows", []):
             if (r["cls"], r["field"]) not in fid:
                 continue
             if r.get("via") and tuple(r["via"]) in bodies:
-                continue      # object of a call into the library: the callee's rows say what is touched
+                # object of a call into the library: the callee's rows say what is touched
+                via_rows.append({"meth": mid[k], "field": fid[(r["cls"], r["field"])], "line": r["line"], "via": disp.get(tuple(r["via"]), "?")})
+                continue
             accesses.append({"meth": mid[k], "field": fid[(r["cls"], r["field"])], "acc": r["acc"], "self": r["self"],
                              "locks": sorted(fid[tuple(l.split("::", 1))] for l in r["locks"] if tuple(l.split("::", 1)) in fid),
                              "file": r["file"], "line": r["line"], "col": r["col"]})
@@ -802,7 +836,7 @@ def merge(res):
     clist = sorted({(mid[a], mid[b], kd) for a, b, kd in calls})
     slist = sorted({(mid[a], mid[b], kd, th, tuple(sorted(fid[tuple(l.split("::", 1))] for l in lk if tuple(l.split("::", 1)) in fid)))
                     for a, b, kd, th, lk in sites})
-    return {"fields": fields, "methods": mlist, "accesses": accesses,
+    return {"fields": fields, "methods": mlist, "accesses": accesses, "accesses_via": via_rows,
             "calls": [{"caller": a, "callee": b, "kind": kd} for a, b, kd in clist],
             "call_sites": [{"caller": a, "callee": b, "kind": kd, "this": th, "locks": list(lk)} for a, b, kd, th, lk in slist],
             "classes": {c: {"bases": classes[c]["bases"], "ancestors": anc[c]} for c in sorted(classes)}}
@@ -911,6 +945,70 @@ def discipline(facts, roots):
                          "witness": None if wit is None else {"controller": wit[0], "filter": wit[1]}})
     missing = {role: [n for n in names if not any(m["name2"] == n for m in M)] for role, names in roots.items()}
     return {"roots": rootids, "reach": {r: sorted(s) for r, s in reach.items()}, "shared": shared, "verdicts": verdicts, "missing_roots": missing}
+
+
+# ----------------------------------------------------------------------------- independent textual cross-check
+
+def strip_code(text):
+    """blank out comments and string / character literals (keeps line structure)"""
+    out, i, n = [], 0, len(text)
+    while i < n:
+        c = text[i]
+        if text.startswith("//", i):
+            while i < n and text[i] != "\n":
+                i += 1
+        elif text.startswith("/*", i):
+            j = text.find("*/", i + 2)
+            j = n if j < 0 else j + 2
+            out.append("".join(ch if ch == "\n" else " " for ch in text[i:j]))
+            i = j
+        elif c in "\"'":
+            q = c
+            out.append(" ")
+            i += 1
+            while i < n and text[i] != q:
+                i += 2 if text[i] == "\\" else 1
+            i += 1
+        else:
+            out.append(c)
+            i += 1
+    return "".join(out)
+
+
+def token_oracle(facts, repo):
+    """Independent of the AST walk: inside the source extent of every member function, every occurrence of
+    an identifier that is the name of a data member (ending in `_`, the library's convention) of the
+    function's class or of one of its bases must be matched by a row (function, member) of the table.
+    -> list of {function, member, file, line} the translator has no row for"""
+    F, M, A = facts["fields"], facts["methods"], facts["accesses"]
+    classes = facts["classes"]
+    have = {(a["meth"], F[a["field"]]["cls"], F[a["field"]]["name"]) for a in A}
+    have_any = {(a["meth"], F[a["field"]]["name"]) for a in A} | {(a["meth"], F[a["field"]]["name"]) for a in facts.get("accesses_via", [])}
+    fields_of = {}
+    for f in F:
+        fields_of.setdefault(f["cls"], set()).add(f["name"])
+    texts, missing = {}, []
+    for mi, m in enumerate(M):
+        if not m["body"] or not m["file"] or m["cls"] not in classes or not m.get("end_line"):
+            continue
+        names = {}
+        for c in [m["cls"]] + classes[m["cls"]]["ancestors"]:
+            for n in fields_of.get(c, ()):
+                if n.endswith("_"):
+                    names.setdefault(n, c)
+        if not names:
+            continue
+        if m["file"] not in texts:
+            try:
+                texts[m["file"]] = strip_code((Path(repo) / m["file"]).read_text()).split("\n")
+            except OSError:
+                texts[m["file"]] = []
+        lines = texts[m["file"]][m["line"] - 1:m["end_line"]]
+        for off, ln in enumerate(lines):
+            for tok in set(re.findall(r"[A-Za-z_][A-Za-z0-9_]*", ln)):
+                if tok in names and (mi, tok) not in have_any:
+                    missing.append({"function": m["qual"], "member": names[tok] + "::" + tok, "file": m["file"], "line": m["line"] + off})
+    return missing
 
 
 # ----------------------------------------------------------------------------- Lean emission
